@@ -293,7 +293,7 @@ fn run(ctx: &mut Ctx) {
     }
     ctx.global("hint_patterns_r2", patterns.len() as u64);
     for (pi, p) in patterns.iter().enumerate() {
-        let blank = ['.', 'x', '_', '-', '|', '+'][pi % 6];
+        let blank = ['.', 'x', '_', '-', '|', '+', '#', ';', '*'][pi % 9];
         let ls = layouts(p, blank);
         // quick: one layout per pattern (cycling), thorough: all three
         let pick: Vec<&String> = if ctx.thorough() { ls.iter().collect() } else { vec![&ls[pi % 7]] };
